@@ -287,3 +287,59 @@ func VerifC06_CustomAttribute(kind, n, wire int) {
 	verifAssert("value kept as generic TTLV", isValue)
 	verifAssert("re-encodes byte-identically", verifBytesEq(ttlv.MarshalTTLV(&att), wireBytes))
 }
+
+// VerifC06_PayloadUnknownObject: the payload decoders that create a managed
+// object from an accompanying object type (Get response, Register request,
+// Export response, Import request) report an error for an unregistered object
+// type instead of returning a payload without (or with a wrong) object.
+// which: 0 Get response, 1 Register request, 2 Export response, 3 Import request.
+func VerifC06_PayloadUnknownObject(which int) {
+	ot := verifNondetUint32("objtype")
+	_, known := c06Objects[ObjectType(ot)]
+	verifAssume(!known)
+	objBytes := c06Item(TagSymmetricKey, 1, c06Item(TagKeyBlock, 1, c06Item(TagKeyFormatType, 5, c06U32(uint32(KeyFormatTypeRaw)))))
+	var body []byte
+	var op Operation
+	dir := 1
+	switch which {
+	case 0:
+		op = OperationGet
+		body = append(body, c06Item(TagObjectType, 5, c06U32(ot))...)
+		body = append(body, c06Item(TagUniqueIdentifier, 7, []byte("id"))...)
+		body = append(body, objBytes...)
+	case 1:
+		op, dir = OperationRegister, 0
+		body = append(body, c06Item(TagObjectType, 5, c06U32(ot))...)
+		body = append(body, c06Item(TagTemplateAttribute, 1, nil)...)
+		body = append(body, objBytes...)
+	case 2:
+		op = OperationExport
+		body = append(body, c06Item(TagObjectType, 5, c06U32(ot))...)
+		body = append(body, c06Item(TagUniqueIdentifier, 7, []byte("id"))...)
+		body = append(body, objBytes...)
+	default:
+		op, dir = OperationImport, 0
+		body = append(body, c06Item(TagUniqueIdentifier, 7, []byte("id"))...)
+		var attr []byte
+		attr = append(attr, c06Item(TagAttributeName, 7, []byte("Object Type"))...)
+		attr = append(attr, c06Item(TagAttributeValue, 5, c06U32(ot))...)
+		body = append(body, c06Item(TagAttribute, 1, attr)...)
+		body = append(body, objBytes...)
+	}
+	var pl OperationPayload
+	tag := TagResponsePayload
+	if dir == 0 {
+		pl = newRequestPayload(op)
+		tag = TagRequestPayload
+	} else {
+		pl = newResponsePayload(op)
+	}
+	verifAssert("payload type is registered", c06TypeName(pl) != "UnknownPayload")
+	dec, derr := ttlv.NewTTLVDecoder(c06Item(tag, 1, body))
+	verifAssert("framing accepted", derr == nil)
+	if derr != nil {
+		return
+	}
+	err := dec.TagAny(tag, pl)
+	verifAssert("unknown object type yields an error, not a value", err != nil)
+}
